@@ -188,6 +188,8 @@ def run(ctx):
                 if not same_spec(spec.dump_fm(cur), back):
                     r.oracle_fail("writer-output", req, f"cycle{cyc}:model-differs", "")
                     break
+            for c_, d_ in fmt.exchange_cycles(GlencoeWriter, GlencoeReader, sc.path("gfm.json"), cur, back, same_spec):
+                r.oracle_fail("writer-output", req, c_, d_)
         for label, doc in documents(ctx):
             rreq = sx.dumps(tag("glencoe_read", spec.aval_sx(doc)))
             mread = ctx.model.call_raw(rreq)
